@@ -1,6 +1,7 @@
 package main
 
 import (
+	"os"
 	"fmt"
 	"strconv"
 	"go/token"
@@ -374,6 +375,16 @@ func (m *Machine) applyContract(st *State, fr *Frame, instr ssa.Instruction, fc 
 	m.usedContracts[name] = true
 	if fc.Trusted {
 		m.trusted["contract of "+name+" (trusted, body not verified)"] = true
+	}
+	if fc.Role != "" && !st.pure {
+		// a function (or function value) that runs in a goroutine role may only be called from that role
+		cur := ""
+		if m.fc != nil {
+			cur = m.fc.Role
+		}
+		okk := cur == fc.Role
+		m.recordObl(st, fr, "guard", fmt.Sprintf("role.%s.%d", name, m.ordinal(fr.fn, instr, "")), m.ctx.Bool(okk), []string{"C10"},
+			fmt.Sprintf("%s runs in role %q; it is called here from role %q", name, fc.Role, cur), okk)
 	}
 	bind := map[string]Value{}
 	if fn != nil {
@@ -1486,10 +1497,12 @@ func (m *Machine) frameCheck(st *State, fr *Frame, ins ssa.Instruction, p *Ptr, 
 	if i := strings.Index(first, "."); i >= 0 {
 		first = first[:i]
 	}
+	if os.Getenv("GOVC_GUARDFRAME") == "" {
 	for _, g := range m.P.Contracts.Guards {
 		if g.Kind == "by" && g.Field == p.Mem+"."+first {
 			return // guarded (or role-confined) field: discipline is checked by guard.* obligations; callers treat it as volatile
 		}
+	}
 	}
 	if strings.HasPrefix(p.Mem, "global<") {
 		return
